@@ -59,11 +59,27 @@ type pump struct {
 	wait usync.WaitCloser
 	aof  bool
 	pos  int64 // next offset expected (aof) / index (rdb)
+	hist int   // history the cache held when the reader was handed out
+	lazy bool  // handed out but not started yet (a consumer that is slow to begin)
 }
 
 func newPump(rd syncer.ChannelReader) *pump {
 	p := &pump{rd: rd, wait: usync.NewWaitCloser(nil), aof: rd.IsAof()}
 	p.cond = sync.NewCond(&p.mu)
+	p.start()
+	return p
+}
+
+// newLazyPump hands the reader out without starting it; start() is called later
+func newLazyPump(rd syncer.ChannelReader) *pump {
+	p := &pump{rd: rd, wait: usync.NewWaitCloser(nil), aof: rd.IsAof(), lazy: true}
+	p.cond = sync.NewCond(&p.mu)
+	return p
+}
+
+func (p *pump) start() {
+	p.lazy = false
+	rd := p.rd
 	rd.Start(p.wait)
 	go func() {
 		b := make([]byte, 4096)
@@ -81,7 +97,6 @@ func newPump(rd syncer.ChannelReader) *pump {
 			}
 		}
 	}()
-	return p
 }
 
 // take waits until n bytes are buffered, the reader ended, or the deadline passed.
@@ -148,6 +163,7 @@ type run struct {
 	maxSize int64
 	nOps    int
 	sample  []string
+	todo    []func() // forced operations (a directed sub-scenario), run before any random choice
 }
 
 func (x *run) op(m map[string]interface{}) {
@@ -292,8 +308,17 @@ func (x *run) readAll() {
 		if want < 0 {
 			want = 0
 		}
+		if p.lazy {
+			p.start()
+		}
 		b, ended := p.take(int(want), 2*time.Second)
-		x.obs(map[string]interface{}{"o": "deliver", "r": id, "n": len(b), "want": want, "match": x.match(b, true, p.pos), "ended": ended})
+		own := true // every byte is the byte of the history the reader was opened on
+		for i, c := range b {
+			if c != Byte(p.hist, p.pos+int64(i)) {
+				own = false
+			}
+		}
+		x.obs(map[string]interface{}{"o": "deliver", "r": id, "n": len(b), "want": want, "match": x.match(b, true, p.pos), "own": own, "ended": ended})
 		p.pos += int64(len(b))
 	}
 }
@@ -325,9 +350,33 @@ func (x *run) newAofWriter() {
 
 func (x *run) step() {
 	r := x.r
+	if len(x.todo) > 0 {
+		f := x.todo[0]
+		x.todo = x.todo[1:]
+		f()
+		return
+	}
 	switch {
 	case x.snap != nil && !x.snap.done:
-		if r.Chance(8) {
+		x.stepSnap(true)
+	case x.wl < 0 && (x.snap == nil || r.Chance(30)):
+		if r.Chance(60) {
+			x.newSnap()
+		} else if x.snap == nil || x.snap.done {
+			x.newAofWriter()
+		}
+	case x.wl < 0:
+		x.newAofWriter()
+	default:
+		x.stepDefault()
+	}
+}
+
+// stepSnap feeds the next piece of the snapshot that is being received (or aborts it)
+func (x *run) stepSnap(mayAbort bool) {
+	r := x.r
+	{
+		if mayAbort && r.Chance(8) {
 			x.snapW.Close()
 			x.snapF.CloseWith(io.EOF)
 			x.snapW.Wait(nil2())
@@ -350,15 +399,61 @@ func (x *run) step() {
 			x.drain(x.snapF)
 		}
 		x.op(map[string]interface{}{"op": "snapappend", "n": n})
-	case x.wl < 0 && (x.snap == nil || r.Chance(30)):
-		if r.Chance(60) {
-			x.newSnap()
-		} else if x.snap == nil || x.snap.done {
-			x.newAofWriter()
+	}
+}
+
+func (x *run) stepDefault() {
+	r := x.r
+	{
+		if r.Chance(5) && x.wr-x.wl >= 3 && x.aofF != nil {
+			// directed: a reader that is handed out but not started, then a new history whose log comes to cover the
+			// offsets the reader still has to deliver, then the reader starts
+			o := x.wl + int64(r.Intn(int(x.wr-x.wl)/2+1))
+			oldWr := x.wr
+			rd, err := x.ch.NewReader(syncer.Offset{RunId: x.label, Offset: o})
+			if err != nil || !rd.IsAof() {
+				if err == nil {
+					rd.Close()
+				}
+			} else {
+				x.nextR++
+				p := newLazyPump(rd)
+				p.pos, p.hist = o, x.hist
+				x.readers[x.nextR] = p
+				x.obs(map[string]interface{}{"o": "open", "r": x.nextR, "off": o, "aof": true, "lazy": true})
+				l := o - int64(r.Intn(3))
+				if l < 1 {
+					l = 1
+				}
+				x.todo = append(x.todo,
+					func() { x.newSnapAt(l, 3) },
+					func() {
+						for x.snap != nil && !x.snap.done {
+							x.stepSnap(false)
+						}
+					},
+					func() {
+						if x.snap != nil && x.snap.done && x.wl < 0 {
+							x.newAofWriter()
+						}
+					},
+					func() {
+						if x.aofF == nil || x.wl < 0 {
+							return
+						}
+						n := oldWr - x.wr + 1 + int64(r.Intn(6))
+						if n < 1 {
+							n = 1
+						}
+						x.aofF.Feed(gen(n, func(i int64) byte { return Byte(x.hist, x.wr+i) }))
+						x.drain(x.aofF)
+						x.wr += n
+						x.op(map[string]interface{}{"op": "append", "n": n})
+					},
+					func() { x.readAll() })
+				return
+			}
 		}
-	case x.wl < 0:
-		x.newAofWriter()
-	default:
 		switch c := r.Intn(100); {
 		case c < 40:
 			n := int64(1 + r.Intn(int(x.logSize)))
@@ -381,10 +476,15 @@ func (x *run) step() {
 			rd, err := x.ch.NewReader(syncer.Offset{RunId: x.label, Offset: o})
 			if err == nil {
 				x.nextR++
-				p := newPump(rd)
-				p.pos = o
+				var p *pump
+				if rd.IsAof() && r.Chance(30) {
+					p = newLazyPump(rd) // started by a later read: the cache may have been reset in between
+				} else {
+					p = newPump(rd)
+				}
+				p.pos, p.hist = o, x.hist
 				x.readers[x.nextR] = p
-				x.obs(map[string]interface{}{"o": "open", "r": x.nextR, "off": o, "aof": rd.IsAof()})
+				x.obs(map[string]interface{}{"o": "open", "r": x.nextR, "off": o, "aof": rd.IsAof(), "lazy": p.lazy})
 			}
 		case c < 70:
 			x.readAll()
@@ -431,15 +531,27 @@ func below(l int64) int64 {
 
 func nil2() context.Context { return context.Background() }
 
-func (x *run) newSnap() {
+func (x *run) newSnap() { x.newSnapAt(-1, -1) }
+
+func (x *run) newSnapAt(fl, fs int64) {
 	if x.aofF != nil {
 		x.aofF.CloseWith(io.EOF)
 		x.aofF, x.aofW = nil, nil
 	}
 	l := int64(20 + x.r.Intn(200))
+	if x.wl >= 0 && x.r.Chance(40) {
+		// a new history whose offsets overlap the old one's: what old readers still hold meets what is written next
+		l = x.wl - 5 + int64(x.r.Intn(int(x.wr-x.wl)+8))
+		if l < 1 {
+			l = 1
+		}
+	}
 	s := int64(x.r.Intn(30))
 	if x.r.Chance(10) {
 		s = 0
+	}
+	if fl >= 0 {
+		l, s = fl, fs
 	}
 	x.hist++
 	f := hx.NewFeedReader()
